@@ -436,3 +436,14 @@ pub fn fnv(h: &mut u64, bytes: &[u8]) {
     }
 }
 pub const FNV0: u64 = 0xcbf29ce484222325;
+
+/// Exotic Unicode: zero-width and bidi controls, line/paragraph separators, private use, the last code point,
+/// letters whose case mappings expand or depend on context, non-ASCII digits and numerics, ligatures,
+/// CJK, an emoji, the spec's multi-codepoint punctuation - plus one plain letter in both cases so that
+/// words form around them.
+pub fn exotic() -> Vec<char> {
+    vec![
+        'a', 'A', '\u{200d}', '\u{200b}', '\u{feff}', '\u{202e}', '\u{301}', '\u{1f600}', '中', 'ﬁ', 'ŉ', 'ǆ', 'Σ', 'ς', 'İ', 'ı', '\u{2028}', '\u{85}',
+        '\u{e000}', '\u{10ffff}', '١', '½', 'ª', '\u{7f}', '—', '…', '⁇', 'ẞ',
+    ]
+}
